@@ -105,7 +105,8 @@ def main(argv=None):
                 specs = [sp]
             else:
                 specs = [{'shard': 0, 'seed': case.get('seed', a.seed), 'tier': tier, 'replay': case['replay'],
-                          'hashseed': case.get('hashseed', '0'), 'env': case.get('env'), 'budget_s': 600, 'reach': False}]
+                          'hashseed': case.get('hashseed', '0'), 'env': case.get('env'), 'budget_s': 600, 'reach': False,
+                          'debug_logging': bool((case.get('extra') or {}).get('debug_logging'))}]
         else:
             specs = mod.shards(tier, a.seed)
             for i, s in enumerate(specs):
@@ -113,6 +114,9 @@ def main(argv=None):
                 s.setdefault('seed', a.seed)
                 # str hashing differs between interpreter runs in real use: vary it over the shards (recorded per violation)
                 s.setdefault('hashseed', str((int(a.seed) * 7 + i) % 5))
+                # process-wide settings an embedding application may have changed: every third shard runs with the
+                # library's loggers enabled for DEBUG (records go to a null sink)
+                s.setdefault('debug_logging', (i + int(a.seed)) % 3 == 1)
                 s.setdefault('tier', tier)
         results = []
         with cf.ThreadPoolExecutor(max_workers=a.jobs) as ex:
@@ -139,6 +143,7 @@ def finish(prop, mod, tier, a, specs, results, t0, fnd):
     reach_funcs = {}
     shard_status = {}
     info['interpreter_hash_seeds'] = sorted({str(s.get('hashseed', '0')) for s in specs})
+    info['shards_with_debug_logging'] = sum(1 for s in specs if s.get('debug_logging'))
     for r in results:
         st = r.get('status')
         shard_status[st] = shard_status.get(st, 0) + 1
